@@ -73,7 +73,7 @@ func Load(o LoadOpts, rel ...string) (*Prog, error) {
 	dir := filepath.Join(o.Repo, o.Module)
 	var pats []string
 	for _, r := range rel {
-		if strings.Contains(r, ".") && !strings.HasPrefix(r, "./") {
+		if first, _, _ := strings.Cut(r, "/"); strings.Contains(first, ".") && first != "." && first != ".." {
 			pats = append(pats, r) // fully-qualified import path
 		} else {
 			pats = append(pats, "./"+strings.TrimPrefix(strings.TrimPrefix(r, "./"), o.Module+"/"))
@@ -111,6 +111,15 @@ func Load(o LoadOpts, rel ...string) (*Prog, error) {
 	}
 	p := &Prog{Fset: cfg.Fset, byPath: map[string]*packages.Package{}, ssaPkgs: map[string]*ssa.Package{}}
 	var errs []string
+	// packages matched by a "..." pattern that hold only test files have nothing to analyse
+	kept := pkgs[:0]
+	for _, pk := range pkgs {
+		if len(pk.GoFiles) == 0 && len(pk.CompiledGoFiles) == 0 && len(pk.Errors) == 0 {
+			continue
+		}
+		kept = append(kept, pk)
+	}
+	pkgs = kept
 	for _, pk := range pkgs {
 		for _, e := range pk.Errors {
 			errs = append(errs, pk.PkgPath+": "+e.Error())
